@@ -320,7 +320,8 @@ class Rewriter:
                             lo = '__lo_%s' % v
                     bound = hi or (base + '.len()')
                     if want_mut:
-                        body2 = re.sub(r'(?<![\w.])%s\b' % re.escape(v), '%s[__i_%s]' % (base, v), body)
+                        body2 = re.sub(r'\*\s*%s\b' % re.escape(v), '%s[__i_%s]' % (base, v), body)
+                        body2 = re.sub(r'(?<![\w.\[])%s\b(?!\])' % re.escape(v), '%s[__i_%s]' % (base, v), body2)
                         bind = ''
                     else:
                         body2 = body
@@ -354,6 +355,19 @@ class Rewriter:
                     body = self._with_step(body, '__i_%s += 1;' % a)
                     return ('let __ms_%s = %s.%s();\n            let mut __i_%s: usize = 0;\n            while __i_%s < __ms_%s.len() {\n                let %s = &__ms_%s[__i_%s].0;\n                let %s = &__ms_%s[__i_%s].1;%s    __i_%s += 1;\n            }' %
                             (a, mapvar, vecfn, a, a, a, a, a, a, b, a, a, body, a))
+                text = self._rewrite_counted(text, hdr, build)
+            elif frag.startswith('fornext:'):
+                # R19: `for X in ITER { body }` over an external iterator (a variable, or an expression such as reader.lines()) ->
+                #      the loop's own desugaring `let mut __it = ITER; loop { let X = match __it.next() { Some(v) => v, None => break }; body }`
+                var = frag[len('fornext:'):]
+                hdr = r'\bfor\s+(\w+)\s+in\s+' + re.escape(var) + r'\s*\{'
+
+                def build(mm, body, var=var):
+                    x = mm.group(1)
+                    self.log.append(('R19', 'for %s in %s -> loop { match <iter>.next() { Some(v) => v, None => break } .. }' % (x, var)))
+                    it = var if re.match(r'^\w+$', var) else '__it_%s' % x
+                    pre = '' if it == var else 'let mut %s = %s;\n        ' % (it, var)
+                    return ('%sloop {\n            let %s = match %s.next() { Some(__v) => __v, None => break };%s}' % (pre, x, it, body))
                 text = self._rewrite_counted(text, hdr, build)
             elif frag.startswith('zip:'):
                 # R14: for (A, B) in X.iter().zip(Y) { body } -> index loop up to the shorter length
